@@ -214,7 +214,10 @@ class C17(Prop):
             "differs, parameters replaced in place; the matrices after the last discretisation are "
             "compared with the model on the current parameters); assemble_matrix_rhs is called 2-3 "
             "times on the stored matrices with an aliasing probe (stored matrices unchanged, "
-            "identical systems); 1-3 "
+            "identical systems, equal to a fresh object's system); the first three cases of every run "
+            "and 12% of the rest first use the SAME Upwind object (discretize + assemble) on other "
+            "grids, always including the transposed Cartesian / triangle grid with equal (dim, cells, "
+            "faces) but different connectivity; 1-3 "
             "components; cycle-flow cases carry an explicit step (random cell values, dt = random "
             "fraction of the CFL limit). non-trivial = at least one non-zero flux on a grid with "
             ">= 2 cells")
@@ -229,6 +232,18 @@ class C17(Prop):
         for i in range(n):
             mode = "cycles" if rng.random() < 0.4 else "random"
             spec = grid_spec(rng, tier, want_cycles=(mode == "cycles"))
+            # ONE Upwind object used on other grids first (discretize + assemble on each with its
+            # own data): directed pairs with equal (dim, cells, faces) but different connectivity
+            # (transposed shapes) in the first cases of every run, random sequences later
+            pre = None
+            if i < 3 or rng.random() < 0.12:
+                a, b = rng.choice([(2, 3), (1, 3), (2, 4), (3, 4), (1, 2)])
+                kind = "tri" if (i == 1 or (i >= 3 and rng.random() < 0.4)) else "cart"
+                mode = "random"
+                spec = {"kind": kind, "n": [a, b]}
+                pre = [{"kind": kind, "n": [b, a]}]
+                if rng.random() < 0.4:
+                    pre.insert(0, grid_spec(rng, tier))
             g = make_grid(spec)
             nf, nc = g.num_faces, g.num_cells
             bnd = set(int(f) for f in g.get_all_boundary_faces()) if nf else set()
@@ -269,6 +284,11 @@ class C17(Prop):
                 case["fexp"] = [rng.choice([0, 0, 0, -70, -60, -75, -53, 20]) for _ in range(nf)]
             elif rs > 0.9:
                 case["intflux"] = True        # integer dtype flux array
+            if pre:
+                case["pre_grids"] = pre
+                case["ncomp"] = k = 1
+                for key_ in ("scale", "fexp", "intflux"):
+                    case.pop(key_, None)
             case["bcv"] = [rng.randint(-6, 6) for _ in range(nf)]
             case["nasm"] = rng.choice([2, 2, 3])
             if rng.random() < 0.45 and nf > 0:
@@ -333,6 +353,17 @@ class C17(Prop):
         data = pp.initialize_data(g, {}, KW, self._params(g, states[0]))
         pd = data[pp.PARAMETERS][KW]
         discr = pp.Upwind(KW)          # ONE object and ONE data dictionary for the whole history
+        for gi, pspec in enumerate(case.get("pre_grids") or []):
+            # the same object on other grids, each with its own data
+            pg = make_grid(pspec)
+            if pg.dim == 0:
+                continue
+            pbc = pp.BoundaryCondition(pg, pg.get_all_boundary_faces(), "dir")
+            pq = np.array([((7 * f + 3 * gi) % 5) - 2 for f in range(pg.num_faces)], dtype=float)
+            pdata = pp.initialize_data(pg, {}, KW, {"bc": pbc, "darcy_flux": pq,
+                                                   "bc_values": np.ones(pg.num_faces)})
+            discr.discretize(pg, pdata)
+            discr.assemble_matrix_rhs(pg, pdata)
         res = {"dim": int(g.dim), "nf": int(nf), "nc": int(nc), "cf": incidence(g),
                "vol": [[Fraction(float(v)).numerator, Fraction(float(v)).denominator]
                        for v in g.cell_volumes],
@@ -368,6 +399,14 @@ class C17(Prop):
                 except ValueError:
                     calls.append({"err": True})
             res["asm"] = calls
+            try:
+                Af, rf = pp.Upwind(KW).assemble_matrix_rhs(g, data)     # fresh object, same data
+                Af = sps.coo_matrix(Af)
+                Af.sum_duplicates()
+                entf = sorted([int(r_), int(c_), float(v)] for r_, c_, v in zip(Af.row, Af.col, Af.data) if v != 0)
+                res["asm_fresh"] = {"m": entf, "rhs": [float(x) for x in np.asarray(rf).ravel()]}
+            except ValueError:
+                res["asm_fresh"] = {"err": True}
             after = [canon(md[k_]) for k_ in keys]
             res["stored_unchanged"] = after == [res["U"], res["D"], res["N"]]
         return res
@@ -380,6 +419,9 @@ class C17(Prop):
         nf, nc, k = res["nf"], res["nc"], case["ncomp"]
         if not res.get("stored_unchanged", True):
             return "assemble_matrix_rhs changed the stored discretisation matrices"
+        if "asm_fresh" in res and res["asm_fresh"] != calls[0]:
+            return ("assemble_matrix_rhs of an Upwind object used on other grids before differs from "
+                    "a fresh object on the same data")
         if any(c != calls[0] for c in calls[1:]):
             return "repeated assemble_matrix_rhs calls on the same stored matrices give different systems"
         if k != 1:
@@ -546,6 +588,8 @@ class C17(Prop):
 
     def finding_key(self, case, res, why):
         if "assembl" in why or "assemble_matrix_rhs" in why:
+            if "fresh object" in why:
+                return "assemble-object-reuse"
             return "assemble-" + ("aliasing" if "stored" in why or "repeated" in why else "system")
         if "explicit step" in why:
             return "step-" + ("total" if "total" in why else "bounds")
